@@ -415,7 +415,7 @@ func (g *G) typ(depth int, self string) *m.Type {
 		if elem.Type.Kind == m.Object || elem.Type.Kind == m.Union {
 			elem.Type = &m.Type{Kind: g.prim()}
 		}
-		if g.p.Validations && rapid.IntRange(0, 3).Draw(t, "elemval") == 0 {
+		if g.p.Validations && elem.Type.Kind != m.User && rapid.IntRange(0, 3).Draw(t, "elemval") == 0 {
 			elem.V = g.validation(elem, 0)
 			g.feat("elem-validation")
 		}
@@ -430,7 +430,7 @@ func (g *G) typ(depth int, self string) *m.Type {
 		if val.Type.Kind == m.Object || val.Type.Kind == m.Union {
 			val.Type = &m.Type{Kind: g.prim()}
 		}
-		if g.p.Validations && rapid.IntRange(0, 3).Draw(t, "mapval") == 0 {
+		if g.p.Validations && val.Type.Kind != m.User && rapid.IntRange(0, 3).Draw(t, "mapval") == 0 {
 			val.V = g.validation(val, 0)
 			g.feat("map-elem-validation")
 		}
